@@ -110,6 +110,17 @@ fn any_string() -> impl Strategy<Value = String> {
 fn bytes_input() -> impl Strategy<Value = Vec<u8>> {
     prop_oneof![
         2 => prop::collection::vec(any::<u8>(), 0..48),
+        // the raw bytes of a string (for the byte entry points of the visitor), sometimes with one byte changed
+        2 => (any_string(), prop::option::of((any::<u16>(), any::<u8>()))).prop_map(|(s, e)| {
+            let mut c = s.into_bytes();
+            if let Some((p, v)) = e {
+                if !c.is_empty() {
+                    let i = idx(p, c.len());
+                    c[i] = v;
+                }
+            }
+            c
+        }),
         // postcard-shaped: varint length then content, content sometimes hostile
         3 => (any_string(), prop::option::of((any::<u16>(), any::<u8>())), -2i8..3).prop_map(|(s, e, dl)| {
             let mut c = s.into_bytes();
@@ -158,6 +169,60 @@ fn case() -> impl Strategy<Value = Case> {
         )
             .prop_map(|(s, edits, content_edit, cut)| Case::MutArchive { s, edits, content_edit, cut }),
     ]
+}
+
+
+// ---- a deserializer that presents the value through every visitor entry point ------------------
+
+/// How the bytes reach the visitor.
+#[derive(Clone, Copy, Debug, PartialEq, Eq)]
+enum Feed {
+    Bytes,
+    BorrowedBytes,
+    ByteBuf,
+    Str,
+    BorrowedStr,
+    String,
+}
+
+const BYTE_FEEDS: [Feed; 3] = [Feed::Bytes, Feed::BorrowedBytes, Feed::ByteBuf];
+const STR_FEEDS: [Feed; 3] = [Feed::Str, Feed::BorrowedStr, Feed::String];
+
+struct Feeder<'de>(Feed, &'de [u8]);
+
+impl<'de> serde::Deserializer<'de> for Feeder<'de> {
+    type Error = serde::de::value::Error;
+    fn deserialize_any<V: serde::de::Visitor<'de>>(self, v: V) -> Result<V::Value, Self::Error> {
+        match self.0 {
+            Feed::Bytes => {
+                let tmp = self.1.to_vec();
+                v.visit_bytes(&tmp)
+            }
+            Feed::BorrowedBytes => v.visit_borrowed_bytes(self.1),
+            Feed::ByteBuf => v.visit_byte_buf(self.1.to_vec()),
+            Feed::Str => {
+                let tmp = std::str::from_utf8(self.1).expect("str feed needs UTF-8").to_string();
+                v.visit_str(&tmp)
+            }
+            Feed::BorrowedStr => v.visit_borrowed_str(std::str::from_utf8(self.1).expect("str feed needs UTF-8")),
+            Feed::String => v.visit_string(std::str::from_utf8(self.1).expect("str feed needs UTF-8").to_string()),
+        }
+    }
+    serde::forward_to_deserialize_any! {
+        bool i8 i16 i32 i64 i128 u8 u16 u32 u64 u128 f32 f64 char str string bytes byte_buf option unit
+        unit_struct newtype_struct seq tuple tuple_struct map struct enum identifier ignored_any
+    }
+}
+
+fn feed<'de, T: Deserialize<'de>>(f: Feed, b: &'de [u8]) -> Result<T, serde::de::value::Error> {
+    T::deserialize(Feeder(f, b))
+}
+
+/// CBOR byte-string item (major type 2) holding `b`.
+fn cbor_bytes(b: &[u8]) -> Vec<u8> {
+    let mut out = Vec::new();
+    ciborium::into_writer(&ciborium::Value::Bytes(b.to_vec()), &mut out).unwrap();
+    out
 }
 
 // ---- oracle -----------------------------------------------------------------------------------
@@ -233,6 +298,17 @@ fn text_routes(s: &str) -> Result<Vec<(&'static str, Text)>, Failure> {
     v.push(("cbor", ciborium::from_reader::<Text, _>(&cb[..]).map_err(|x| e("cbor", x.to_string()))?));
     let c = CString::new(s).map_err(|x| e("CString", x.to_string()))?;
     v.push(("CStr", Text::try_from(c.as_c_str()).map_err(|x| e("CStr", x.to_string()))?));
+    for f in STR_FEEDS {
+        v.push(("visitor str entry", feed::<Text>(f, s.as_bytes()).map_err(|x| e(&format!("{f:?}"), x.to_string()))?));
+    }
+    for f in BYTE_FEEDS {
+        if let Ok(t) = feed::<Text>(f, s.as_bytes()) {
+            v.push(("visitor bytes entry", t));
+        }
+    }
+    if let Ok(t) = ciborium::from_reader::<Text, _>(&cbor_bytes(s.as_bytes())[..]) {
+        v.push(("cbor byte string", t));
+    }
     let first = v[0].1.clone();
     let ar = rkyv::to_bytes::<RErr>(&first).map_err(|x| e("rkyv to_bytes", x.to_string()))?;
     let a = rkyv::access::<rkyv::Archived<Text>, RErr>(&ar).map_err(|x| e("rkyv access", x.to_string()))?;
@@ -265,6 +341,20 @@ fn ident_routes(s: &str) -> Result<Vec<(&'static str, Identifier)>, Failure> {
     let mut cb = Vec::new();
     ciborium::into_writer(s, &mut cb).unwrap();
     v.push(("cbor", ciborium::from_reader::<Identifier, _>(&cb[..]).map_err(|x| e("cbor", x.to_string()))?));
+    for f in STR_FEEDS {
+        v.push((
+            "visitor str entry",
+            feed::<Identifier>(f, s.as_bytes()).map_err(|x| e(&format!("{f:?}"), x.to_string()))?,
+        ));
+    }
+    for f in BYTE_FEEDS {
+        if let Ok(t) = feed::<Identifier>(f, s.as_bytes()) {
+            v.push(("visitor bytes entry", t));
+        }
+    }
+    if let Ok(t) = ciborium::from_reader::<Identifier, _>(&cbor_bytes(s.as_bytes())[..]) {
+        v.push(("cbor byte string", t));
+    }
     let first = v[0].1.clone();
     let ar = rkyv::to_bytes::<RErr>(&first).map_err(|x| e("rkyv to_bytes", x.to_string()))?;
     let a = rkyv::access::<rkyv::Archived<Identifier>, RErr>(&ar).map_err(|x| e("rkyv access", x.to_string()))?;
@@ -290,6 +380,10 @@ fn text_all_reject(s: &str) -> CheckResult {
     let mut cb = Vec::new();
     ciborium::into_writer(s, &mut cb).unwrap();
     ensure!(ciborium::from_reader::<Text, _>(&cb[..]).is_err(), sig, "cbor {s:?}");
+    for f in STR_FEEDS.into_iter().chain(BYTE_FEEDS) {
+        ensure!(feed::<Text>(f, s.as_bytes()).is_err(), sig, "serde visitor entry {f:?} {s:?}");
+    }
+    ensure!(ciborium::from_reader::<Text, _>(&cbor_bytes(s.as_bytes())[..]).is_err(), sig, "cbor byte string {s:?}");
     // an archive of the raw string has the layout of an archived Text
     let ar = rkyv::to_bytes::<RErr>(&s.to_string()).unwrap();
     ensure!(rkyv::access::<rkyv::Archived<Text>, RErr>(&ar).is_err(), sig, "rkyv access {s:?}");
@@ -311,6 +405,14 @@ fn ident_all_reject(s: &str) -> CheckResult {
     let mut cb = Vec::new();
     ciborium::into_writer(s, &mut cb).unwrap();
     ensure!(ciborium::from_reader::<Identifier, _>(&cb[..]).is_err(), sig, "cbor {s:?}");
+    for f in STR_FEEDS.into_iter().chain(BYTE_FEEDS) {
+        ensure!(feed::<Identifier>(f, s.as_bytes()).is_err(), sig, "serde visitor entry {f:?} {s:?}");
+    }
+    ensure!(
+        ciborium::from_reader::<Identifier, _>(&cbor_bytes(s.as_bytes())[..]).is_err(),
+        sig,
+        "cbor byte string {s:?}"
+    );
     let ar = rkyv::to_bytes::<RErr>(&s.to_string()).unwrap();
     ensure!(rkyv::access::<rkyv::Archived<Identifier>, RErr>(&ar).is_err(), sig, "rkyv access {s:?}");
     Ok(())
@@ -470,6 +572,30 @@ fn check_bytes(b: &[u8], info: &mut CaseInfo) -> CheckResult {
         ident_ok(&t, "cbor bytes")?;
         accepted = true;
     }
+    // the raw bytes presented through the byte entry points of the serde visitor, and as a CBOR byte string
+    for f in BYTE_FEEDS {
+        if let Ok(t) = feed::<Text>(f, b) {
+            text_ok(&t, "serde visitor bytes entry")?;
+            ensure!(t.as_str().as_bytes() == b, "bytes entry changed content", "{f:?} {b:?}");
+            info.label("visitor_bytes_accepted_text");
+            accepted = true;
+        }
+        if let Ok(t) = feed::<Identifier>(f, b) {
+            ident_ok(&t, "serde visitor bytes entry")?;
+            ensure!(t.as_str().as_bytes() == b, "bytes entry changed content", "{f:?} {b:?}");
+            info.label("visitor_bytes_accepted_ident");
+            accepted = true;
+        }
+    }
+    let cbb = cbor_bytes(b);
+    if let Ok(t) = ciborium::from_reader::<Text, _>(&cbb[..]) {
+        text_ok(&t, "cbor byte string")?;
+        accepted = true;
+    }
+    if let Ok(t) = ciborium::from_reader::<Identifier, _>(&cbb[..]) {
+        ident_ok(&t, "cbor byte string")?;
+        accepted = true;
+    }
     if let Ok(c) = CStr::from_bytes_until_nul(b) {
         if let Ok(t) = Text::try_from(c) {
             text_ok(&t, "CStr bytes")?;
@@ -584,7 +710,7 @@ pub fn run(ctx: &Ctx) -> ! {
         "text_ident",
         "strings (identifier-like, printable, arbitrary unicode, embedded NUL, almost-identifiers, lengths 18..27 around \
          the 22-byte inline limit, contents that also exist as &'static literals) through FromStr, TryFrom<String>, \
-         TryFrom<Text>, TryFrom<&CStr>, serde_json (str/reader/value), postcard, CBOR, rkyv access+deserialize, Clone, \
+         TryFrom<Text>, TryFrom<&CStr>, serde_json (str/reader/value), postcard, CBOR (text and byte strings), every serde visitor entry point (str/borrowed str/String/bytes/borrowed bytes/byte buf), rkyv access+deserialize, Clone, \
          From<Identifier>, Add; arbitrary and near-valid byte strings through the byte decoders; arbitrary buffers and \
          edited archives through rkyv access. Non-trivial = a string that must be rejected by every constructor, or a valid \
          string compared across all routes (Eq/Ord/Hash/const_eq vs str, vs a second string), or a byte/archive input that \
